@@ -566,6 +566,9 @@ def setitem(arr, key, value):
         _write(tgt, inreg, lambda idx: value)
         return
     out_shape, mapping, kind, items = parse_index(arr, key)
+    # numpy casts the assigned value to the array's dtype: complex -> float drops the imaginary part (ComplexWarning),
+    # float -> int truncates
+    value = _cast_for_store(arr, value)
     # value accessor over out idx
     if isinstance(value, SArr):
         vshape, mv, _ = broadcast_shapes(value.shape, out_shape)
@@ -674,6 +677,25 @@ def setitem(arr, key, value):
         _, o = invert(bidx)
         return val_at(o)
     _write(arr, inreg, newval)
+
+
+def _cast_for_store(arr, value):
+    tgt = arr.dtype
+    if tgt == 'complex' or tgt == 'obj':
+        return value
+    vdt = value.dtype if isinstance(value, SArr) else ('complex' if isinstance(value, (SCplx, complex)) else None)
+    if vdt == 'complex':
+        if isinstance(value, SArr):
+            snap = value._snapshot()
+            value = SArr(value.shape, lambda idx: SCplx.lift(snap(idx)).re, 'real')
+        else:
+            value = SCplx.lift(value).re
+        vdt = 'real'
+    if tgt == 'int' and getattr(arr, 'strict_int', False):
+        if isinstance(value, SArr) and value.dtype == 'real':
+            snap = value._snapshot()
+            return SArr(value.shape, lambda idx: to_int(snap(idx)), 'int')
+    return value
 
 
 def _probe_affine(f):
